@@ -1052,7 +1052,9 @@ func (db *BadgerDB) DeleteAll(ctx storage.Context) error {
 		defer it.Close()
 		for it.Seek(minKey); it.Valid(); it.Next() {
 			item := it.Item()
-			k := item.Key()
+			// The write batch keeps the key until it is flushed, but item.Key() is only
+			// valid until the iterator moves on, so a copy is needed.
+			k := item.KeyCopy(nil)
 			storage.StoreKeyBytesRead <- len(k)
 			// Did we pass the final key?
 			if bytes.Compare(k, maxKey) > 0 {
